@@ -373,7 +373,9 @@ class World:
         x4s = resolve_rel(t.fmt, op['rel'])
         vals = [C.v_from_x4(x4s[0], f)] if op.get('scalar') else [C.v_from_x4(x, f) for x in x4s]
         obj = float(vals[0]) if op.get('scalar') else np.array([float(v) for v in vals])
-        z = F(obj, like=t.x) if op['how'] == 'like' else F(obj, template=t.x)
+        cb = Recorder() if op.get('with_callbacks') else None
+        kw = {'callbacks': [cb]} if cb is not None else {}
+        z = F(obj, like=t.x, **kw) if op['how'] == 'like' else F(obj, template=t.x, **kw)
         q = self.quantize(t, vals)
         want = [any(u[1] for u in q), any(u[2] for u in q), any(u[3] for u in q)]
         if list(C.flags(z)) != want:
@@ -381,7 +383,13 @@ class World:
             raise Mismatch('derive_like/%s/flags/%s' % (op['how'], '+'.join(which)), {'template_flags': t.flags, 'expected': want, 'got': list(C.flags(z))})
         if C.flat(C.codes(z)) != [u[0] for u in q]:
             raise Mismatch('derive_like/%s/codes' % op['how'], {'expected': [u[0] for u in q], 'got': C.flat(C.codes(z))})
-        self.adopt(z, modes=t.modes)
+        o = self.adopt(z, modes=t.modes)
+        if cb is not None and o is not None:
+            # callbacks given next to like= / template= are registered on the new object: later writes must notify them
+            if list(z.callbacks) != [cb]:
+                raise Mismatch('derive_like/%s/callbacks-argument-ignored' % op['how'], {'callbacks': repr(z.callbacks)[:100]})
+            cb.take()
+            o.cb = cb
 
     def op_derive(self, op):
         a = self.pick(op['i'])
@@ -553,7 +561,7 @@ def op_strategies():
         'derive': st.fixed_dictionaries({'i': st.integers(0, 7), 'like': st.booleans()}),
         'unary': st.fixed_dictionaries({'i': st.integers(0, 7), 'name': st.sampled_from(['neg', 'pos', 'abs'])}),
         'like_method': st.fixed_dictionaries({'i': st.integers(0, 7), 'j': st.integers(0, 7)}),
-        'derive_like': st.fixed_dictionaries({'i': st.integers(0, 7), 'how': st.sampled_from(['like', 'template']), 'scalar': st.booleans(),
+        'derive_like': st.fixed_dictionaries({'i': st.integers(0, 7), 'how': st.sampled_from(['like', 'template']), 'scalar': st.booleans(), 'with_callbacks': st.booleans(),
                                               'rel': st.lists(st.tuples(st.sampled_from(['hi', 'lo', 'zero', 'mid', 'mid', 'far+', 'far-']), st.integers(-6, 6)).map(list),
                                                               min_size=1, max_size=3)}),
     }
